@@ -331,8 +331,25 @@ func checkC12(e *core.Env) {
 			name := genName(r, rs, false)
 			asStream := r.Intn(2) == 0
 			e.Note("inproc %q stream=%v", name, asStream)
-			err, pan := callName(ch, name, asStream)
-			judgeName(e, "inproc", false, rs, name, asStream, err, pan, "")
+			var cc grpc.ClientConnInterface = ch
+			extra := ""
+			if r.Intn(4) == 0 {
+				// a client interceptor that routes the call to another name (versioning, sharding): it is the name
+				// the interceptor passes on that is resolved
+				asked, target := genName(r, rs, false), name
+				cc = grpchan.InterceptClientConn(ch, func(ctx context.Context, _ string, req, reply interface{}, c *grpc.ClientConn, invoker grpc.UnaryInvoker, opts ...grpc.CallOption) error {
+					return invoker(ctx, target, req, reply, c, opts...)
+				}, func(ctx context.Context, desc *grpc.StreamDesc, c *grpc.ClientConn, _ string, streamer grpc.Streamer, opts ...grpc.CallOption) (grpc.ClientStream, error) {
+					return streamer(ctx, desc, c, target, opts...)
+				})
+				extra = fmt.Sprintf("caller asked for %q, a client interceptor routed the call to %q", asked, target)
+				err, pan := callName(cc, asked, asStream)
+				judgeName(e, "inproc", false, rs, name, asStream, err, pan, extra)
+				e.Eval(fmt.Sprintf("inproc-routed|%s|%v", nameClass(name, rs), asStream), true)
+				continue
+			}
+			err, pan := callName(cc, name, asStream)
+			judgeName(e, "inproc", false, rs, name, asStream, err, pan, extra)
 			e.Eval(fmt.Sprintf("inproc|%s|%v", nameClass(name, rs), asStream), true)
 		}
 		if i < 2 {
